@@ -29,6 +29,7 @@ func checkC01(c *Ctx, r *Result, tier string) {
 	c01Fresh(c, r)
 	c01MatchFormula(c, r)
 	c01ScopeWalk(c, r)
+	c01DefaultScope(c, r)
 }
 
 // structFieldsRead: fields of struct type T read by fn and everything it reaches in the module.
